@@ -73,12 +73,12 @@ vp_seg_mk(struct nng_http_chunks *cl, int which, enum chunk_state st, size_t siz
 	g_chl[which].n    = 0;
 	g_chl[which].last = NULL;
 	if (st == CS_DATA) {
-		nni_http_chunk *ch = malloc(sizeof(*ch));
+		nni_http_chunk *ch = malloc(VP_LEM_OBJ);
 		__CPROVER_assume(ch != NULL);
 		ch->c_size  = csize;
 		ch->c_alloc = csize + 2;
 		ch->c_resid = cresid;
-		ch->c_data  = malloc(csize + 2);
+		ch->c_data  = malloc(VP_LEM_OBJ);
 		__CPROVER_assume(ch->c_data != NULL);
 		for (size_t i = 0; i < SEG_CS + 2; i++) {
 			if (i < csize + 2) {
